@@ -96,8 +96,11 @@ class Report:
         self.consulted.update(locs)
 
     def floor(self, rid: str, what: str, got: int, minimum: int):
-        """Fail closed when a rule matched fewer sites than confirmed by hand."""
+        """Fail closed when a rule matched far fewer sites than confirmed by hand.  `minimum` is the count confirmed on the
+        reviewed tree; a quarter of slack is allowed, because merging duplicated code or extracting a helper legitimately
+        changes the number of sites while a vanished anchor or an unrecognised idiom loses (nearly) all of them."""
         self.counts[f'{rid}:{what}'] = got
+        minimum = max(1, -(-minimum * 3 // 4))
         if got < minimum:
             # a shortfall is fatal (exit 2) unless the run also found violations, which then take precedence
             self.floor_fail.append(f'{rid}: matched {got} {what}, expected at least {minimum} '
